@@ -85,6 +85,21 @@ int main(void) {
             if (r == -1) puts("no-accessor"); else printf("r %d\n", ret);
             continue;
         }
+        if (!strcmp(tok[0], "facts") && nt == 2) {
+            const hv_format_t* f = fmt(tok[1]);
+            if (!f) { puts("bad-op"); continue; }
+            printf("f %ld %ld %ld\n", f->header_len_macro, f->sizeof_type, f->offsetof_payload);
+            continue;
+        }
+        if (!strcmp(tok[0], "payload") && nt == 2) {
+            const hv_format_t* f = fmt(tok[1]);
+            if (!f) { puts("bad-op"); continue; }
+            if (!f->payload) { puts("no-accessor"); continue; }
+            uint8_t* base = malloc(64);
+            printf("p %ld\n", (long)(f->payload(base) - base));
+            free(base);
+            continue;
+        }
         if (!strcmp(tok[0], "uget") && nt == 7) {
             buf_t* b = find(tok[1]);
             if (!b) { puts("bad-op"); continue; }
